@@ -29,7 +29,7 @@ def registry():
             if isinstance(obj, type):
                 reg[name] = obj
     for name in ("TableCost", "TableSaving", "TableChangeScore", "TableLocalAnomalyScore", "L1Cost", "TrendPenalisedL2Cost", "MemoisingAbsCost", "WeightedCUSUM",
-                 "FixedChangeDetector", "FunctionChangeScore", "FunctionLocalAnomalyScore"):
+                 "FixedChangeDetector", "IndexLabelChangeDetector", "FunctionChangeScore", "FunctionLocalAnomalyScore"):
         reg[name] = getattr(U, name)
     return reg
 
